@@ -163,7 +163,7 @@ func Ite(c, a, b Term) Term {
 }
 
 func Select(arr, idx Term, elem Sort) Term { return App(elem, "select", arr, idx) }
-func Store(arr, idx, v Term) Term        { return App(arr.Sort, "store", arr, idx, v) }
+func Store(arr, idx, v Term) Term          { return App(arr.Sort, "store", arr, idx, v) }
 
 func ArraySort(idx, elem Sort) Sort { return Sort(fmt.Sprintf("(Array %s %s)", idx, elem)) }
 
